@@ -3,7 +3,7 @@
    are performed in order and stay active (the engine's generators are held open); at the answer
    the probes are observed. *)
 From Coq Require Import String.
-From Coq Require Import List ZArith Arith.
+From Coq Require Import List ZArith Arith Bool.
 Import ListNotations.
 Local Open Scope string_scope.
 From YP Require Import Base.Str Term.Term Term.Show Unify.Unify Unify.RunUnify Engine.GetValue.
@@ -43,14 +43,36 @@ Fixpoint zap (t : term) : term :=
   | _ => t
   end.
 
+Fixpoint obs_eqb (a b : obs) : bool :=
+  match a, b with
+  | OS x, OS y => str_eqb x y
+  | OZ x, OZ y => Z.eqb x y
+  | OL l, OL m => (fix go (l m : list obs) : bool :=
+                     match l, m with
+                     | [], [] => true
+                     | x :: l', y :: m' => andb (obs_eqb x y) (go l' m')
+                     | _, _ => false
+                     end) l m
+  | _, _ => false
+  end.
+
+Fixpoint has_var (t : term) : bool :=
+  match t with TVar _ => true | TFun _ args => existsb has_var args | _ => false end.
+
+(* per probe: get_value, to_python, [den agrees], [get_value on the re-ordered store agrees],
+   what the saved value denotes / converts to after every variable was re-bound to zz (empty if
+   the value is ground: then it must be unchanged), [to_python = py_of (get_value)] *)
 Definition probe_obs (fuel : nat) (k : nat) (s : store) (t : term) : obs :=
   let r := gv fuel s t in
+  let py := to_python fuel s t in
   OL [ gv_obs r;
-       pres_obs (to_python fuel s t);
-       term_obs (den s t);
-       gv_obs (gv fuel (shuffle k s) t);
-       match r with Some r' => OL [term_obs (zap r'); pres_obs (py_of (zap r'))] | None => OL [] end;
-       match r with Some r' => pres_obs (py_of r') | None => OL [] end ].
+       pres_obs py;
+       obool (obs_eqb (gv_obs r) (gv_obs (Some (den s t))));
+       obool (obs_eqb (gv_obs r) (gv_obs (gv fuel (shuffle k s) t)));
+       match r with
+       | Some r' => if has_var r' then OL [term_obs (zap r'); pres_obs (py_of (zap r'))] else OL []
+       | None => OL [] end;
+       match r with Some r' => obool (obs_eqb (pres_obs py) (pres_obs (py_of r'))) | None => OL [] end ].
 
 Definition run_alt (fuel : nat) (k : nat) (probes : list term) (steps : list (term * term)) : obs :=
   match run_stack fuel [] steps with
